@@ -20,7 +20,7 @@ Lemma c09_from_symbol s :
   first_with (fun u => ustr_eqb (u_symbol S u) s) (u_iter S) (Unit_from_symbol S s) /\
   Quantity_unit_from_symbol S s = Unit_from_symbol S s.
 Proof.
-  split; [|reflexivity]. unfold first_with, Unit_from_symbol, iter_find.
+  split; [|apply unit_from_symbol_is_from_symbol]. unfold first_with, Unit_from_symbol, iter_find, iter_filter. rewrite ?hd_error_filter.
   exact (find_first (fun unit_ => ustr_eqb (u_symbol S unit_) s) (u_iter S)).
 Qed.
 
@@ -28,7 +28,7 @@ Lemma c09_from_scale a :
   first_with (fun u => a_eqb am (u_scale S u) a) (u_iter S) (LinearScaledUnit_from_scale S a) /\
   HasRefUnit_unit_from_scale S a = LinearScaledUnit_from_scale S a.
 Proof.
-  split; [|reflexivity]. unfold first_with, LinearScaledUnit_from_scale, iter_find.
+  split; [|apply unit_from_scale_is_from_scale]. unfold first_with, LinearScaledUnit_from_scale, iter_find, iter_filter. rewrite ?hd_error_filter.
   exact (find_first (fun unit_ => a_eqb am (u_scale S unit_) a) (u_iter S)).
 Qed.
 
